@@ -78,6 +78,14 @@ CLAIMED = {
     note="Trusted: Coq kernel + vm_compute; no axioms; hand-written model of _subgraph.py/_normalize.py; harness. numpy.prod and the "
          "float factor 1.0 it introduces are exact on the dyadic coefficients generated; symbolic substituted values are not modelled.",
     technique="Coq proof (induction over term lists, any-assignment algebraic identity) + model/implementation correspondence", ref="§5 C18"),
+ "C07": dict(
+    text="Coq theorem C07_truth: for every expression tree over the eight gates (any arity >= 1, any nesting depth, leaves = labels, "
+         "boolean-valued dicts and boolean model objects), whenever the builders return a model it evaluates at every 0/1 assignment "
+         "to the truth value of the expression (XOR/XNOR = parity) and is stored canonically -- proved by modelling the builders as "
+         "expression trees over the C05 operators and composing C05_tree with a boolean-algebra lemma (C07_denote, nested induction). "
+         "Tied to /repo by exact comparison of the built models / error kinds, a truth-table oracle, and an unchanged-operands check.",
+    note="Trusted: Coq kernel + vm_compute; no axioms; hand-written model of sat/_satisfiability.py on top of the C05 model; harness.",
+    technique="Coq proof (nested induction over expression trees, on top of C05_tree) + model/implementation correspondence", ref="§5 C07"),
 }
 NA_REASON = "check not built yet in this round; see DESIGN.md §8 (order of work)"
 
